@@ -408,9 +408,10 @@ class NeighbourMovementTracking(object):
             else:
                 return invalid_match
 
-        cost_matrix[0 : len(detections_1), 0 : len(detections_2)] = [
-            [cost_if_not_too_far(d1, d2) for d2 in detections_2] for d1 in detections_1
-        ]
+        cost_matrix[0 : len(detections_1), 0 : len(detections_2)] = numpy.array(
+            [[cost_if_not_too_far(d1, d2) for d2 in detections_2] for d1 in detections_1],
+            dtype=float,
+        ).reshape(len(detections_1), len(detections_2))
 
         return cost_matrix
 
